@@ -22,6 +22,13 @@ def two_demotions(x):
     return walk(e["proj"])
 
 
+# "any process": the fresh processes also differ in environment and working directory
+ENVS = [None,
+        {"LANG": "tr_TR.UTF-8", "LC_ALL": "tr_TR.UTF-8", "TZ": "Pacific/Kiritimati", "RUST_BACKTRACE": "1", "COLUMNS": "20", "NO_COLOR": "1"},
+        {"LANG": "C", "LC_ALL": "C", "TZ": "UTC", "RUST_LOG": "trace", "TERM": "dumb", "HOME": "/nonexistent", "USER": "nobody"}]
+CWDS = [None, "/", None]
+
+
 def run(tier, rep):
     c.build_harness()
     reps, threads, procs = (16, 4, 4) if tier == "quick" else (200, 16, 32)
@@ -42,7 +49,7 @@ def run(tier, rep):
         for p in range(1, procs + 1):
             c.harness(["c05-repeat", "--cases", cases, "--reps", 0, "--threads", 0, "--stride", stride,
                        "--random", nrandom, "--seed", c.seed(), "--digests", dig + ".%d" % p,
-                       "--reverse", 1 if p % 2 == 0 else 0], timeout=3000)
+                       "--reverse", 1 if p % 2 == 0 else 0], timeout=3000, env=ENVS[p % len(ENVS)], cwd=CWDS[p % len(CWDS)])
             other = open(dig + ".%d" % p).read()
             if other != base:
                 idx = next(i for i, (a, b) in enumerate(zip(base.split("\n"), other.split("\n"))) if a != b)
